@@ -1,5 +1,5 @@
 """C08: every reachable ratchet tree is valid and matches the context tree hash."""
 from corecheck import run_core
 def run(ctx):
-    return run_core(ctx, "C08", sim_cfgs=["SIM_core", "SIM_tree", "SIM_kem"], need_stats=("epoch_oracles",), need_shapes=("interior_blank", "unmerged"),
+    return run_core(ctx, "C08", sim_cfgs=["SIM_core", "SIM_tree", "SIM_kem", "SIM_ext"], need_stats=("epoch_oracles",), need_shapes=("interior_blank", "unmerged"),
                     invariants_note="TreesValid = StructurallyValid (no trailing blank, shape, unmerged-leaf consistency, unique keys/members) on every member's copy; concrete: node-by-node tree comparison, tree hash recomputed from exported nodes by the harness, exported tree + GroupInfo validated by an ExternalClient")
